@@ -688,6 +688,8 @@ class Interp:
                         continue
                     for p, l in list(d.items()):
                         if p in pd and pd[p] != l and l[0] in ("int", "term"):
+                            if p and p[-1] == ("f", "@idx") and l[0] == "int":
+                                continue    # cursor of a by-value iterator over a fixed small array: bounded by its length
                             d[p] = self.widen_leaf(st, key, root, p, pd[p], l)
             st.loopmem[key] = {r: dict(d) for r, d in st.mem.items()}
         elif n >= 2 and is_head:
@@ -1362,6 +1364,12 @@ class Interp:
         if l[0] == "ref":
             clos_tree = st.read_tree(l[1], l[2])
             l = tree_leaf(clos_tree)
+        if l[0] == "fn":
+            # a function item used as a callable (`opt.and_then(helper)`): run the local function on the arguments
+            body = self.prog.bodies.get(l[1])
+            if body is None or body.is_derived:
+                return NotImplemented
+            return self.enter(st, fr, body, list(arg_trees), None, None, on_return=on_return)
         if l[0] != "closure":
             return NotImplemented
         body = self.prog.bodies.get(l[1])
